@@ -325,8 +325,25 @@ class Catalogue:
             self._explain(stmt)
         finally:
             self.con.set_authorizer(None)
-        # foreign-key cascades are not reported by the authorizer
+        # Foreign-key cascades: depending on the SQLite version the authorizer reports the cascaded
+        # DELETEs as plain events of the statement or not at all.  Normalise: cascaded deletes are
+        # attributed to "fk-cascade:<parent>" and added when missing.
         out = list(dict.fromkeys(events))
+        main = None
+        mt = re.match(r"\s*(?:WITH\b.*?\)\s*)?DELETE\s+FROM\s+(\w+)", stmt, re.I | re.S)
+        if mt:
+            main = mt.group(1)
+            children = {}
+            frontier = {main}
+            while frontier:
+                nxt = set()
+                for t in self.tables.values():
+                    for from_col, ref_table, to_col, on_delete in t.fks:
+                        if ref_table in frontier and (on_delete or "").upper() == "CASCADE" and t.name not in children and t.name != main:
+                            children[t.name] = ref_table
+                            nxt.add(t.name)
+                frontier = nxt
+            out = [(e[0], e[1], e[2], f"fk-cascade:{children[e[1]]}") if (e[0] == "DELETE" and e[3] is None and e[1] in children) else e for e in out]
         deleted = {e[1] for e in out if e[0] == "DELETE"}
         frontier = set(deleted)
         seen = set(deleted)
